@@ -42,7 +42,13 @@ ASSUMPTIONS = [
     "subnormal float32 inputs: either output sign accepted (TF kernels run in "
     "denormals-are-zero mode, tf.sign(-1e-40) == 0)",
     "straight-through cancellation regime |s| >= 2^24*|xq| (known finding "
-    "C03-KF1) is excluded from generation by construction (large side: |s| < "
+    "C03-KF1) is excluded from generation by construction, where s is the "
+    "surrogate of the documented forward expression: s = x for quantized_po2 "
+    "and for quantized_relu_po2 on 0 <= x <= max_value (or without "
+    "max_value), s = slope*x on the leaky side, s = max_value for "
+    "quantized_relu_po2 above max_value - there nothing is excluded, positive "
+    "inputs up to float32 max are generated and must give the exact result "
+    "(label huge_clamped_exact) (large side: |s| < "
     "2^23 * 2^top; small side, only when the smallest exponent lo <= -48: "
     "|x| outside [2^(lo+23), epsilon)); excluded walk points are counted in "
     "info.excluded_ste_cancellation; the oracle itself uses the exact bound "
@@ -64,13 +70,15 @@ REQUIRED_LABELS = {
               "r:saturated_low", "r:saturated_high", "r:breakpoint_band",
               "r:exact_power_of_two", "r:eps_floor", "r:zero",
               "r:clamped_to_max_value", "r:subnormal_input", "r:interior",
-              "subnormal_code", "ste_off", "idempotence_checked"],
+              "subnormal_code", "ste_off", "idempotence_checked",
+              "huge_clamped_exact"],
     "thorough": ["walk", "scalar_path", "hyp", "smoke", "quantized_po2",
                  "quantized_relu_po2", "mode:rnd", "mode:floor", "leaky",
                  "r:saturated_low", "r:saturated_high", "r:breakpoint_band",
                  "r:exact_power_of_two", "r:eps_floor", "r:zero",
                  "r:clamped_to_max_value", "r:subnormal_input", "r:interior",
-                 "subnormal_code", "ste_off", "idempotence_checked"],
+                 "subnormal_code", "ste_off", "idempotence_checked",
+                 "huge_clamped_exact"],
 }
 
 _checked_eps = []
@@ -177,7 +185,9 @@ def evaluate(cfg, xs, shape=None, stats=None, chunk=None):
       i = first(bad)
       fails.append(("ste", {"cls": cfg["cls"], "region": "ste_cancellation",
                             "side": "below_epsilon" if ref["below"][i] else
-                                    "above_top"},
+                                    "above_top",
+                            "surrogate": ("x", "slope*x", "max_value")[
+                                int(ref["skind"][i])]},
                     desc(i) + " |s|>=2^24*|xq|", i))
   live &= ~ref["cancel"]
 
@@ -326,6 +336,11 @@ def evaluate(cfg, xs, shape=None, stats=None, chunk=None):
     stats["in_cancellation_regime"] = bool(ref["cancel"].any())
     stats["idempotence_checked"] = idem
     stats["neg_leaky"] = bool(f["slope"] and (x64 < 0).any())
+    # ReLU variant with max_value, x >= 2^24 * 2^top: surrogate is max_value,
+    # the result must still be exact (no cancellation there)
+    stats["huge_clamped_exact"] = bool(
+        f["use_ste"] and ((ref["skind"] == 2) &
+                          (x64 >= 2.0 ** (24 + f["top"]))).any())
   return fails
 
 
